@@ -324,6 +324,37 @@ func c19(c *Ctx) {
 
 	// two key exchanges (two clients, two data centres) draw their secrets at the same time: no generator keeps
 	// its bytes in package-level storage
+	// "creating a client does not reseed any generator those secrets depend on": the draws read crypto/rand.Reader at
+	// the moment they are made, so the variable itself is part of the source - nothing in the repository assigns it
+	r.Rule("R19.W", "no function of the repository stores to crypto/rand.Reader (or to any other package-level variable of crypto/rand / math/rand): the process-wide source every draw reads is never replaced", 1)
+	{
+		n, bad := 0, 0
+		for f := range c.P.AllFunctions() {
+			if !c.inRepo(f) || len(f.Blocks) == 0 {
+				continue
+			}
+			n++
+			for _, b := range f.Blocks {
+				for _, in := range b.Instrs {
+					st, ok := in.(*ssa.Store)
+					if !ok {
+						continue
+					}
+					g, ok := st.Addr.(*ssa.Global)
+					if !ok || g.Pkg == nil {
+						continue
+					}
+					if pp := g.Pkg.Pkg.Path(); pp == "crypto/rand" || pp == "math/rand" || pp == "math/rand/v2" {
+						bad++
+						r.Violate("R19.W", sprintf("source-replaced:%s/%s.%s#%d", an.ShortName(f), pp, g.Name(), bad), c.pos(st.Pos()), "assignment to "+pp+"."+g.Name()+": every later draw of every client in the process reads what was put there")
+					}
+				}
+			}
+		}
+		if bad == 0 {
+			r.Hold("R19.W", "source-replaced:none", "", sprintf("%d functions of the repository, none assigns a variable of crypto/rand or math/rand", n))
+		}
+	}
 	r.Rule("R19.G", "nothing reachable from the secret generators (RandomInt128/256, MakeGAB, GetInputCheckPassword) writes a package-level variable or the storage of one", 1)
 	{
 		var entries []*ssa.Function
